@@ -8,7 +8,7 @@ cd /verif
 CONF=$(tools/confirm_seed.sh $SRC $NAME 2>&1)
 echo "$CONF" > /tmp/seed/$NAME.confirm
 J=$(echo "$CONF" | head -1)
-ok=$(echo "$J" | python3 -c "import json,sys; j=json.loads(sys.stdin.readline()); print(int(j.get('apply') and j['build_rc']==0 and j['suite_rc']==0 and j['suite_failed']==0 and ((j['demo_with_rc']!=0 and j['demo_without_rc']==0) if not j.get('compile_demo') else (j['demo_with_rc']==0 and j['demo_without_rc']!=0))))" 2>/dev/null)
+ok=$(echo "$J" | python3 -c "import json,sys; j=json.loads(sys.stdin.readline()); print(int(j.get('apply') and j['build_rc']==0 and j['suite_rc']==0 and j['suite_failed']==0 and ((j['demo_with_rc']!=0 and j['demo_without_rc']==0) if not j.get('compile_demo') else (j.get('with_compile_errors',1)==0 and j.get('without_compile_errors',0)>0 and j['demo_without_rc']!=0))))" 2>/dev/null)
 if [ "$ok" != "1" ]; then echo "$NAME NOT CONFIRMED: $J"; exit 1; fi
 tools/eval_seed_iso.sh $SRC $NAME "$@" > /tmp/seed/$NAME.eval 2>&1
 mkdir -p seeded/$NAME
